@@ -48,6 +48,8 @@ def run(ctx: core.Ctx):
         return out
     b2check.run_b2(ctx, lambda rng, th: [(gen.conn_second_session(rng, "drop"), rng.randrange(10 ** 9), rng.choice([0, 3])) for _ in range(4000 if th else 120)], ["C15re"],
                    label="connect() again on the same object after close() / a lost link; the second session's link fails (monitor only)", accept=False)
+    b2check.run_b2(ctx, lambda rng, th: [(gen.conn_dead_flood(rng), rng.randrange(10 ** 9), 0) for _ in range(1500 if th else 40)], ["C15"],
+                   label="hundreds of API calls on the dead connection (monitor only)", accept=False)
     b2check.run_b2(ctx, jobs_hot, ["C15"], label="lifecycle scenarios with bytecode-level preemption inside the disconnect handling, monitor only", accept=False)
     b2check.run_b2(ctx, jobs_api, ["C15"], label="link failure during / after YncaApi.initialize() (the callback given to YncaApi)")
     ctx.info["rule"] = ("sessions of two caller threads with bursts, a link drop / EOF / write error / close() inserted at a random position, close() from a caller, "
